@@ -23,7 +23,10 @@
 (***************************************************************************)
 EXTENDS Integers, Sequences, FiniteSets, TLC
 
-CONSTANT Cases        \* set of abstract cases explored by the model (see AnnotateMC.tla)
+CONSTANT Cases,       \* set of abstract cases explored by the model (see AnnotateMC.tla)
+         Dev          \* what-if switches: deviation classes (PART 3b) of EARLIER versions of the code, each repaired
+                      \* by a fix: commit.  Dev = {} is the current code; a witness configuration Annotate_w_<class>.cfg
+                      \* switches one old behaviour back on and lets TLC exhibit the case on which it breaks the property
 
 (***************************************************************************)
 (* PART 1 -- vocabulary                                                    *)
@@ -140,8 +143,10 @@ InitNodes(c) == Eager([i \in 1..NVals(c) |-> InitNode(Val(c, i), IsRet(i))], NVa
 
 IsPointerType(n, isRet) ==        \* _is_pointer_type
   \/ (~isRet /\ n.dir \in {"out", "inout"})
-  \/ RCls(n.ty) # "basic"
+  \/ (RCls(n.ty) # "basic" /\ ~("nullable-on-enum-value" \notin Dev /\ n.ty.cls = "enum"))
   \/ (n.ty.cls = "basic" /\ n.ty.stars >= 1)
+  \/ ("alias-pointer-not-a-pointer" \notin Dev /\ n.ty.cls = "alias" /\ n.ty.stars >= 1)
+  \/ ("nullable-on-enum-value" \notin Dev /\ n.ty.cls = "enum" /\ n.ty.stars >= 1)
 
 Warn(n, w) == [n EXCEPT !.warned = @ \cup {w}]
 
@@ -240,7 +245,9 @@ NullStage(n, a, isRet) ==
             ELSE n2
       n4 == IF n3.dir # "out" /\ n3.ty.gi \in {"Gio.AsyncReadyCallback", "Gio.Cancellable"} /\ ~n3.ty.isArr
             THEN [n3 EXCEPT !.nullable = TRUE] ELSE n3
-      n5 == IF a.notn # "" THEN [n4 EXCEPT !.nullable = FALSE, !.notNullable = TRUE] ELSE n4    \* any (not ...) is read as (not nullable)
+      n5 == IF a.notn = "optional" /\ "not-optional" \notin Dev THEN [n4 EXCEPT !.optional = FALSE]
+            ELSE IF a.notn # "" THEN [n4 EXCEPT !.nullable = FALSE, !.notNullable = TRUE]    \* earlier: any (not ...) was read as (not nullable)
+            ELSE n4
       n6 == IF a.skip THEN [n5 EXCEPT !.skip = TRUE] ELSE n5
   IN [n6 EXCEPT !.attrs = a.attrs]
 
@@ -258,7 +265,9 @@ ParamCallbackStage(nodes, i, a) ==          \* _apply_annotations_param_callback
        IN IF a.closure > 0
           THEN LET s3 == [s2 EXCEPT ![i].closure = a.closure]
                IN IF RCls(s3[a.closure + 1].ty) # "any" \/ s3[a.closure + 1].ty.isArr
-                  THEN [s3 EXCEPT ![i] = Warn(s3[i], "closure")] ELSE s3
+                  THEN (IF "closure-target-not-gpointer" \notin Dev THEN [s2 EXCEPT ![i] = Warn(s2[i], "closure")]
+                        ELSE [s3 EXCEPT ![i] = Warn(s3[i], "closure")])           \* earlier: warned about and applied all the same
+                  ELSE s3
           ELSE s2
 
 ParamClosureStage(nodes, i, a) ==           \* _apply_annotations_param_closure (callback typedefs)
@@ -266,7 +275,8 @@ ParamClosureStage(nodes, i, a) ==           \* _apply_annotations_param_closure 
   IF a.closure < 0 THEN nodes
   ELSE IF a.closure > 0 THEN [nodes EXCEPT ![i] = Warn(n, "closure")]
   ELSE LET n2 == [n EXCEPT !.closure = i - 1]
-       IN [nodes EXCEPT ![i] = IF RCls(n.ty) # "any" \/ n.ty.isArr THEN Warn(n2, "closure") ELSE n2]
+       IN [nodes EXCEPT ![i] = IF RCls(n.ty) # "any" \/ n.ty.isArr
+                               THEN Warn(IF "closure-target-not-gpointer" \notin Dev THEN n ELSE n2, "closure") ELSE n2]
 
 \* warnings of the comment-block validator: annotations that are not allowed on a Returns: tag
 Conflict(a) == (a.notn = "nullable" /\ (a.nullable \/ a.allownone)) \/ (a.notn = "optional" /\ a.optional)
@@ -303,18 +313,21 @@ IsCb(n)      == RCls(n.ty) = "callback" /\ ~n.ty.isArr
 IsDestroy(n) == IsCb(n) /\ n.ty.gi = "GLib.DestroyNotify"
 IsWellKnownCb(n) == IsCb(n) /\ n.ty.gi \in {"GLib.DestroyNotify", "Gio.AsyncReadyCallback"}
 
-RECURSIVE Pair(_, _, _, _)
-Pair(c, nodes, k, cb) ==        \* k: parameter being visited, cb: value index of the current callback parameter (0 = none)
+\* k: parameter being visited, cb: value index of the current callback parameter (0 = none),
+\* ac / ad: values whose closure / destroy was annotated explicitly (the annotation beats the convention; earlier it did not)
+RECURSIVE Pair(_, _, _, _, _, _)
+Pair(c, nodes, k, cb, ac, ad) ==
   IF k > Len(c.params) THEN nodes
   ELSE LET i == k + 1
            n == nodes[i]
-       IN IF IsCb(n) /\ ~IsDestroy(n) THEN Pair(c, nodes, k + 1, i)
-          ELSE IF cb = 0 THEN Pair(c, nodes, k + 1, cb)
+       IN IF IsCb(n) /\ ~IsDestroy(n) THEN Pair(c, nodes, k + 1, i, ac, ad)
+          ELSE IF cb = 0 THEN Pair(c, nodes, k + 1, cb, ac, ad)
           ELSE IF IsDestroy(n)
-               THEN Pair(c, [nodes EXCEPT ![cb].destroy = k, ![cb].scope = "notified", ![cb].transfer = "none"], k + 1, cb)
+               THEN Pair(c, [nodes EXCEPT ![cb].destroy = IF cb \in ad THEN @ ELSE k, ![cb].scope = "notified", ![cb].transfer = "none"],
+                         k + 1, cb, ac, ad)
           ELSE IF n.ty.cls = "any" /\ ~n.ty.isArr /\ c.params[k].ud
-               THEN Pair(c, [nodes EXCEPT ![cb].closure = k], k + 1, cb)
-          ELSE Pair(c, nodes, k + 1, cb)
+               THEN Pair(c, [nodes EXCEPT ![cb].closure = IF cb \in ac THEN @ ELSE k], k + 1, cb, ac, ad)
+          ELSE Pair(c, nodes, k + 1, cb, ac, ad)
 
 RECURSIVE ClosureNullable(_, _, _)
 ClosureNullable(c, nodes, k) ==
@@ -327,7 +340,9 @@ ClosureNullable(c, nodes, k) ==
 Pass3(c, nodes) ==
   LET s1 == Eager([i \in 1..NVals(c) |-> IF i > 1 /\ IsWellKnownCb(nodes[i])
                                            THEN [nodes[i] EXCEPT !.scope = "async", !.transfer = "none"] ELSE nodes[i]], NVals(c))
-  IN ClosureNullable(c, Pair(c, s1, 1, 0), 1)
+      ac == IF "overridden-by-convention" \notin Dev THEN {i \in 1..NVals(c) : s1[i].closure # 0} ELSE {}
+      ad == IF "overridden-by-convention" \notin Dev THEN {i \in 1..NVals(c) : s1[i].destroy # 0} ELSE {}
+  IN ClosureNullable(c, Pair(c, s1, 1, 0, ac, ad), 1)
 
 Final(c) == Pass3(c, Annotated(c))
 
@@ -421,11 +436,15 @@ LenSources(c, k) == {j \in 1..NVals(c) : HasArray(Val(c, j).ann) /\ Val(c, j).an
 IsLenTarget(c, i) == IsParam(i) /\ LenSources(c, i - 1) # {}
 \* destroy-notify parameters that the pairing convention attaches to the callback parameter i:
 \* later parameters of type GDestroyNotify up to the next callback parameter
+\* (a parameter that is certainly a callback ends the search; one whose type is overridden by (type) / (array) may
+\* or may not be one any more, so the sets below over-approximate and the clauses using them stay silent)
 RECURSIVE FollowingUntilCb(_, _)
 FollowingUntilCb(c, k) == IF k > Len(c.params) THEN {}
-                          ELSE IF c.params[k].ck \in {"callbackT", "asyncReady"} /\ c.params[k].ptr = 0 THEN {}
+                          ELSE IF /\ c.params[k].ck \in {"callbackT", "asyncReady"} /\ c.params[k].ptr = 0
+                                  /\ c.params[k].ann.type = "" /\ ~HasArray(c.params[k].ann) THEN {}
                           ELSE {k} \cup FollowingUntilCb(c, k + 1)
-ConvDestroy(c, i) == {k \in FollowingUntilCb(c, i) : c.params[k].ck = "destroyNotify" /\ c.params[k].ann.type = ""}
+\* (a (type T) written on the notifier does not exclude it: an unresolvable T leaves the C type in place)
+ConvDestroy(c, i) == {k \in FollowingUntilCb(c, i) : c.params[k].ck = "destroyNotify"}
 ConvClosure(c, i) == {k \in FollowingUntilCb(c, i) : c.params[k].ck \in {"gpointer", "void"} /\ c.params[k].ud}
 NoTypeTricks(c) == \A j \in 1..NVals(c) : Val(c, j).ann.type = "" /\ ~(IsParam(j) /\ HasArray(Val(c, j).ann) /\ Val(c, j).ck \in CallbackKinds)
 
@@ -469,6 +488,11 @@ K_CallerAllocates(r, i) == O(r, i).callerAllocates = (IF A(r, i).dir = "outcalle
 \* (out) "automatically determines allocation": the documented rule is single vs double indirection on a structure
 A_CallerAllocatesInferred(r, i) == AllocJudged(r, i) /\ A(r, i).dir = "out" /\ V(r, i).ck \in RecordKinds /\ V(r, i).ptr \in {1, 2}
 K_CallerAllocatesInferred(r, i) == O(r, i).callerAllocates = (IF V(r, i).ptr = 1 THEN "1" ELSE "0")
+\* "Default Annotations" of the documentation: (in) parameters are (transfer none), (inout) and (out) parameters
+\* (transfer full), (transfer none) if caller-allocates -- the transfer an annotated direction brings when none is written
+A_DirectionTransfer(r, i) == /\ Spoken(r, i) /\ IsParam(i) /\ A(r, i).dir # "" /\ A(r, i).transfer = "" /\ A(r, i).type = ""
+                             /\ ~IsLenTarget(r.case, i) /\ V(r, i).ck \notin (CallbackKinds \cup {"unknownT", "void"})
+K_DirectionTransfer(r, i) == O(r, i).transfer = (IF O(r, i).direction = "in" \/ O(r, i).callerAllocates = "1" THEN "none" ELSE "full")
 \* a direction / scope / closure / destroy annotation on a return value is not valid there
 A_ReturnOnlyParam(r, i) == LET a == A(r, i) IN Spoken(r, i) /\ IsRet(i) /\ (a.dir # "" \/ a.scope # "" \/ a.closure >= 0 \/ a.destroy > 0)
 K_ReturnOnlyParam(r, i) ==
@@ -598,7 +622,7 @@ K_DestroyBad(r, i) == "destroy" \in W(r, i) /\ O(r, i).destroy = r.wo[i].destroy
 A_ReturnVoid(r, i) == IsRet(i) /\ O(r, i).present /\ V(r, i).ck = "void" /\ V(r, i).ptr = 0 /\ A(r, i) # EmptyAnn
 K_ReturnVoid(r, i) == "return" \in W(r, i) /\ O(r, i) = r.retBare
 
-ClauseNames == {"Transfer", "TransferBad", "Direction", "CallerAllocates", "CallerAllocatesInferred", "ReturnOnlyParam",
+ClauseNames == {"Transfer", "TransferBad", "Direction", "DirectionTransfer", "CallerAllocates", "CallerAllocatesInferred", "ReturnOnlyParam",
                 "Nullable", "NullableBad", "NotNullable", "Optional", "OptionalBad", "NotOptional",
                 "AllowNoneOut", "AllowNonePointer", "AllowNoneBad",
                 "Skip", "Attrs", "Array", "ArrayLengthIndex", "ArrayLengthDirection",
@@ -609,6 +633,7 @@ ClauseNames == {"Transfer", "TransferBad", "Direction", "CallerAllocates", "Call
 Ante(name, r, i) ==
   CASE name = "Transfer" -> A_Transfer(r, i)            [] name = "TransferBad" -> A_TransferBad(r, i)
     [] name = "Direction" -> A_Direction(r, i)          [] name = "CallerAllocates" -> A_CallerAllocates(r, i)
+    [] name = "DirectionTransfer" -> A_DirectionTransfer(r, i)
     [] name = "CallerAllocatesInferred" -> A_CallerAllocatesInferred(r, i)
     [] name = "ReturnOnlyParam" -> A_ReturnOnlyParam(r, i)
     [] name = "Nullable" -> A_Nullable(r, i)            [] name = "NullableBad" -> A_NullableBad(r, i)
@@ -630,6 +655,7 @@ Ante(name, r, i) ==
 Cons(name, r, i) ==
   CASE name = "Transfer" -> K_Transfer(r, i)            [] name = "TransferBad" -> K_TransferBad(r, i)
     [] name = "Direction" -> K_Direction(r, i)          [] name = "CallerAllocates" -> K_CallerAllocates(r, i)
+    [] name = "DirectionTransfer" -> K_DirectionTransfer(r, i)
     [] name = "CallerAllocatesInferred" -> K_CallerAllocatesInferred(r, i)
     [] name = "ReturnOnlyParam" -> K_ReturnOnlyParam(r, i)
     [] name = "Nullable" -> K_Nullable(r, i)            [] name = "NullableBad" -> K_NullableBad(r, i)
@@ -653,7 +679,7 @@ Clause(name, r, i) == Ante(name, r, i) => Cons(name, r, i)
 \* cheap pre-filter (case only): the clauses that are about an annotation present on the value
 Candidates(a, isRet) ==
   (IF a.transfer # "" THEN {"Transfer", "TransferBad"} ELSE {})
-  \cup (IF a.dir # "" /\ ~isRet THEN {"Direction", "CallerAllocates", "CallerAllocatesInferred"} ELSE {})
+  \cup (IF a.dir # "" /\ ~isRet THEN {"Direction", "DirectionTransfer", "CallerAllocates", "CallerAllocatesInferred"} ELSE {})
   \cup (IF isRet THEN {"ReturnOnlyParam", "ReturnVoid"} ELSE {})
   \cup (IF a.nullable THEN {"Nullable", "NullableBad"} ELSE {})
   \cup (IF a.notn = "nullable" THEN {"NotNullable"} ELSE IF a.notn = "optional" THEN {"NotOptional"} ELSE {})
@@ -674,27 +700,39 @@ Speaking(r) == UNION {{<<i, name>> : name \in {n \in Candidates(A(r, i), IsRet(i
 Failing(r)  == {p \in Speaking(r) : ~Cons(p[2], r, p[1])}
 
 (***************************************************************************)
-(* PART 3b -- deviation classes: input classes on which the scanner is     *)
-(* known (from triage of model counterexamples replayed on the real code)  *)
-(* not to satisfy a clause.  Defined on the CASE only.  A rejected         *)
-(* observation is reported with its class ("unexplained" if none), which   *)
-(* is what known_findings.json matches on.                                 *)
+(* PART 3b -- deviation classes: input classes on which EARLIER versions   *)
+(* of the scanner did not satisfy a clause (found by replaying model       *)
+(* counterexamples on the real code; each repaired by a fix: commit, see   *)
+(* known_findings.json).  Defined on the CASE only.  A rejected            *)
+(* observation is reported with its class ("none" if it is in none), which *)
+(* is part of the signature known_findings.json matches on; the what-if    *)
+(* switches Dev of the implementation-shaped layer carry the same names.   *)
 (***************************************************************************)
 Deviation(name, c, i) ==
   LET v == Val(c, i) a == v.ann IN
   CASE \* (not optional) is implemented as (not nullable): it never clears optional and it clears nullable
-       name = "NotOptional" /\ (a.optional \/ a.allownone) -> "not-optional-ignored"
-    [] name \in {"Nullable", "AllowNonePointer"} /\ a.notn = "optional" -> "not-optional-clears-nullable"
-       \* by-value enum / flags are taken for pointers: (nullable) / (allow-none) accepted without a warning
+       name = "NotOptional" /\ (a.optional \/ a.allownone) -> "not-optional"
+    [] name \in {"Nullable", "AllowNonePointer"} /\ a.notn = "optional" -> "not-optional"
+       \* by-value enum / flags were taken for pointers: (nullable) / (allow-none) accepted without a warning
     [] name \in {"NullableBad", "AllowNoneBad"} /\ v.ck \in EnumKinds /\ v.ptr = 0 -> "nullable-on-enum-value"
-       \* a pointer to an alias of a basic type is taken for a non-pointer
+       \* a pointer to an alias of a basic type was taken for a non-pointer
     [] name \in {"Nullable", "AllowNonePointer", "Transfer"} /\ v.ck = "aliasT" /\ v.ptr >= 1 -> "alias-pointer-not-a-pointer"
-       \* the callback/user_data/GDestroyNotify pairing convention overrides an explicit annotation
-    [] name = "Closure" /\ Callish(c) /\ a.closure > 0 /\ (ConvClosure(c, i) \ {a.closure}) # {} -> "closure-overridden-by-convention"
-    [] name = "Destroy" /\ Callish(c) /\ a.destroy > 0 /\ (ConvDestroy(c, i) \ {a.destroy}) # {} -> "destroy-overridden-by-convention"
-       \* closure on something that is not a gpointer is warned about but applied all the same
+       \* the callback/user_data/GDestroyNotify pairing convention overrode an explicit annotation
+    [] name = "Closure" /\ Callish(c) /\ a.closure > 0 /\ (ConvClosure(c, i) \ {a.closure}) # {} -> "overridden-by-convention"
+    [] name = "Destroy" /\ Callish(c) /\ a.destroy > 0 /\ (ConvDestroy(c, i) \ {a.destroy}) # {} -> "overridden-by-convention"
+       \* closure on something that is not a gpointer was warned about but applied all the same
     [] name = "ClosureTargetBad" -> "closure-target-not-gpointer"
     [] OTHER -> "none"
+
+\* how a clause fails: an invalid annotation that was not reported ("unwarned") or reported but applied all the same
+\* ("applied"); a valid one that is not reflected ("not-reflected").  Part of the signature a finding is matched on.
+WarnName(name) == CASE name = "TransferBad" -> "transfer" [] name = "NullableBad" -> "nullable"
+                    [] name = "OptionalBad" -> "optional" [] name = "AllowNoneBad" -> "allow-none"
+                    [] name = "ElementTypeBad" -> "element-type" [] name = "ScopeBad" -> "scope"
+                    [] name \in {"ClosureBad", "ClosureTargetBad"} -> "closure" [] name = "DestroyBad" -> "destroy"
+                    [] name = "ReturnVoid" -> "return" [] OTHER -> ""
+How(name, r, i) == IF WarnName(name) = "" THEN (IF name = "ReturnOnlyParam" THEN "invalid-on-return" ELSE "not-reflected")
+                   ELSE IF WarnName(name) \in W(r, i) THEN "applied" ELSE "unwarned"
 
 (***************************************************************************)
 (* PART 4 -- the model                                                     *)
@@ -715,9 +753,10 @@ Scan == /\ phase = "scan"
 Next == Scan
 Spec == Init /\ [][Next]_vars
 
-\* implementation layer => property layer, on every case of the bounded space
-\* (modulo the named deviation classes of PART 3b, each of which is a reported finding candidate)
-ImplSatisfiesProperty == \A p \in bad : Deviation(p[2], case, p[1]) # "none"
-\* used with expect-violation configs to extract one witness per deviation class
+\* implementation layer => property layer, on every case of the bounded space: the current code (Dev = {}) has no
+\* failing pair at all; with a what-if switch on, only pairs of the switched-on classes may fail
+ImplSatisfiesProperty == \A p \in bad : Deviation(p[2], case, p[1]) \in Dev
+\* witness configurations (Dev = {class}): TLC's counterexample to NoDeviation is a case on which the old behaviour
+\* breaks the property; the harness replays it on the real code, where it has to be accepted
 NoDeviation == bad = {}
 =============================================================================
